@@ -23,7 +23,8 @@ def _counters(lines, verdicts):
          "timeout_cases": 0, "early_timeout_accepted": 0, "not_run": 0,
          "single_page_cases": 0, "single_page_with_caller_state_and_retry": 0,
          "coordinator_checked_multi_node_multi_page": 0, "forced_early_timeout_cases": 0,
-         "timeout_with_early_drop": 0}
+         "timeout_with_early_drop": 0, "early_timeout_drop_branch": 0, "single_page_nonrows_or_ignored": 0,
+         "not_run_trace_race": 0}
     for ln, v in zip(lines, verdicts):
         parts = ln.split("|")
         case = parts[0].split()
@@ -67,6 +68,8 @@ def _counters(lines, verdicts):
             c["timeout_with_early_drop"] += 1
         if case[0] == "P":
             c["single_page_cases"] += 1
+            if script.endswith("/V") or script.endswith("/X") or "i/" in script:
+                c["single_page_nonrows_or_ignored"] += 1
             if case[3] != "stN" and len(parts) > 1 and parts[1].split()[-1].count(",") >= 1:
                 c["single_page_with_caller_state_and_retry"] += 1
         if case[1] == "s" and case[0] != "P" and nodes >= 2 and len(parts) > 1:
@@ -76,6 +79,13 @@ def _counters(lines, verdicts):
                 c["coordinator_checked_multi_node_multi_page"] += 1
         if v and v.startswith("ok early-timeout"):
             c["early_timeout_accepted"] += 1
+        if v and v.startswith("ok early-timeout drop"):
+            # the verdict names the acceptor branch: accept_drop_timeout (C07_drop_timeout_sound)
+            c["early_timeout_drop_branch"] += 1
+        if v and v.startswith("ok not-run trace-race"):
+            c["not_run"] += 1
+            c["not_run_trace_race"] += 1
+            continue
         if any("U" in f.split(",") for f in faults[1:]):
             c["unprepared_on_later_page"] += 1
         obs = parts[1].split() if len(parts) > 1 else []
@@ -101,10 +111,11 @@ def _extra(lines, verdicts):
 _FLOORS = {"drop_cases": 40, "connection_pager_cases": 40, "cases_with_nonretried_failure": 40,
            "cases_ctor_error": 10, "cases_with_empty_page": 150, "cases_ignore_write_error": 2,
            "cases_nonrows_reply": 5, "cases_plan_exhausted": 3, "unprepared_on_later_page": 12,
-           "slow_consumer_error_on_page_ge2_seen_by_caller": 10, "timeout_cases": 5,
+           "slow_consumer_error_on_page_ge2_seen_by_caller": 10, "timeout_cases": 8,
            "cases_connection_reset": 2, "requests_seen": 1500, "single_page_cases": 25,
            "single_page_with_caller_state_and_retry": 5, "coordinator_checked_multi_node_multi_page": 100,
-           "early_timeout_accepted": 1, "timeout_with_early_drop": 1}
+           "early_timeout_accepted": 2, "early_timeout_drop_branch": 1,
+           "single_page_nonrows_or_ignored": 3}
 
 
 def _post(lines, verdicts):
@@ -117,7 +128,8 @@ def _post(lines, verdicts):
         return out
     scale = max(1, len(lines) // 1500)
     # families of fixed size do not grow with the random part of a thorough run
-    fixed_big = {"timeout_cases": 14, "early_timeout_accepted": 3, "timeout_with_early_drop": 2, "single_page_cases": 150, "single_page_with_caller_state_and_retry": 30,
+    fixed_big = {"timeout_cases": 16, "early_timeout_accepted": 6, "early_timeout_drop_branch": 2,
+                 "single_page_nonrows_or_ignored": 20, "single_page_cases": 150, "single_page_with_caller_state_and_retry": 30,
                  "slow_consumer_error_on_page_ge2_seen_by_caller": 60}
     for k, floor in _FLOORS.items():
         need = floor * scale if k not in fixed_big else (floor if scale == 1 else fixed_big[k])
@@ -138,22 +150,22 @@ SPEC = {
     "coq_targets": ["Props/C07.vo", "Extract/ExC07.vo"],
     "bin": "c07",
     "sizes": {"quick": 400, "thorough": 20000},
-    "min_cases": {"quick": 495, "thorough": 19500},
+    "min_cases": {"quick": 505, "thorough": 19500},
     "post": _post,
     "search_n": 4000,
     "runner_timeout": 2400,
     "rule": ("e2e: the real pagers against mocknode -- Session::query_iter (api q), Session::execute_iter (api e; E = cached "
              "result metadata) and, through the hook scylla::client::verif_pager, Connection::execute_iter on a bare "
-             "connection (mode c). quick = 507 cases: 39 systematic (all page-size sequences over {0,1,2} of length <= 3) + 400 "
+             "connection (mode c). quick = 518 cases: 39 systematic (all page-size sequences over {0,1,2} of length <= 3) + 400 "
              "seeded random scripts (0..40 distinct rows, 1..9 pages, empty pages anywhere, random paging states, per-page "
              "faults: ERROR frames whose retry decision same/next/dont/ignore is taken by a scripted retry policy or by "
              "DefaultRetryPolicy idempotent / non-idempotent, UNPREPARED + re-prepare, delayed replies, connection reset "
              "(retried or not), plan exhaustion, Void / non-RESULT replies, early 'no more pages'; 1..4 nodes; consumer = full "
              "read F, slow S, every Pending poll cancelled J, early drop D) + 16 'slow consumer x error on a page >= 2' (S) + 16 "
              "'prepared statement evicted on a later page' (U) + 30 single-page requests resumed with a caller-supplied paging "
-             "state (P: query_single_page / execute_single_page) + 4 client-timeout cases (T; one of them with an early drop) + 2 forced early-timeout cases (E: "
-             "400 ms client timeout, a reply before the scripted T delayed by 2 s). thorough = 20 417 cases (39 + 20 000 random "
-             "with 0..400 rows / 1..24 pages + 80 + 80 + 200 + 12 + 6). Observed: the items the caller saw and, from the mock's "
+             "state (P: query_single_page / execute_single_page) + 8 client-timeout cases (T; 2 of them with an early drop, one per mode) + 9 forced early-timeout cases (E: "
+             "400 ms client timeout, a reply before the scripted T delayed by 2 s; 3 of them Session pagers whose caller drops after the error: only accept_drop_timeout explains them). thorough = 20 433 cases (39 + 20 000 random "
+             "with 0..400 rows / 1..24 pages + 80 + 80 + 200 + 16 + 18). Observed: the items the caller saw and, from the mock's "
              "trace, (Rows pages served before, paging_state, mock node) of every QUERY/EXECUTE of the statement. "
              "non-trivial = at least two pages or one fault; distinct = distinct case lines"),
     "nontrivial": _nontrivial,
@@ -162,7 +174,7 @@ SPEC = {
         "mocknode (harness/src/mocknode): serves the scripted pages/faults and records every frame; the runner "
         "derives from its trace the paging_state and the receiving node of every QUERY/EXECUTE of the statement and the "
         "number of Rows pages served before it",
-        "kind P (single page): ok only through the extracted accept_single (C07_accept_single_sound), viol only when the "
+        "kind P (single page; Rows, Void, non-RESULT replies and an ignored error): ok only through the extracted accept_single or `ok not-run`, viol only when the "
         "extracted prop_single_ok fails; the driver only parses the observation",
         "spec_page mirrors the retry loop clause by clause with a target count instead of targets; the independent part of "
         "the specification is the stream level (`expected`); C07_page_outcome_closed_form proves it equal to a loop-free form",
@@ -182,10 +194,12 @@ SPEC = {
         "plans_ok: every plan enumerates the same node set (the driver uses the synthetic plan [0..n-1]; 1 shard per node)",
         "verdicts: ok = accept_full / accept_drop (sound for prop_*_ok when plans_ok, outside class O1; drop: constructor "
         "succeeded), accept_full_timeout / accept_drop_timeout (sound for the script with the timeout moved earlier), P: accept_single, "
-        "or `ok not-run` (counted, capped at max(2, lines/200)); inside class O1 the property predicate is evaluated",
+        "or `ok not-run` (set-up failures and T/E observations whose last queued frame did not reach the mock's trace; counted, capped at "
+        "max(2, lines/200); the fixed-size families have floors T+E 8 of 17, early-timeout 2 of 9, drop-timeout branch 1 of 3, P 25 of 30); "
+        "inside class O1 the property predicate is evaluated",
         "wall-clock constants: T cases 4 s client timeout (earlier strike tolerated), E cases 400 ms vs a 2 s delayed reply, "
         "watchdog 300 s per case (hang -> viol when a stream is expected), wait_pools 10 s after reset cases, settle loop "
-        "<= 400 ms after drop / timeout cases, hook connect_timeout 5 s (-> not-run)",
+        "<= 400 ms after drop cases, 300 ms of silence (<= 3 s) after timeout cases, hook connect_timeout 5 s (-> not-run)",
         "Connection::execute_iter is reached through the add-only hook scylla::client::verif_pager "
         "(opens a bare connection, prepares, calls execute_iter); the control connection's own use of it is not driven",
     ],
